@@ -11,4 +11,4 @@ for id in "$@"; do
   echo "== $id: $(echo "$out" | grep '^VIOLATION\|^INFRA\|KNOWN' | head -2) [violation_lines=$rc]"
   echo "$out" | grep "violation:" | head -2 | cut -c1-300
 done
-rm -rf $scratch
+rm -rf $scratch /verif/.alt/$(python3 -c "import hashlib;print(hashlib.md5(b'$scratch').hexdigest()[:10])")
